@@ -25,6 +25,8 @@ ASSUMPTIONS = [
     "thread interleavings are those the GIL scheduler produced under yield/sleep injection inside component bodies; they are counted, not enumerated",
 ]
 REACH = [
+    "insights/core/serde.py::marshal",
+    "insights/core/serde.py::Hydration.dehydrate",
     "insights/core/dr.py::run_all",
     "insights/core/dr.py::generate_incremental",
     "insights/core/dr.py::get_subgraphs",
@@ -44,6 +46,13 @@ POOLS = (1, 2, 4, 8)
 
 def gen_case(rng, tier, idx):
     from vpmon import gen_graph as G
+    if idx % 5 == 4:
+        # a collection-like graph of real spec factories, persisted while it runs (what insights.collect does)
+        from vpmon.props import c11
+        c = c11.gen_case(rng, tier, idx)
+        c["specs"] = [x for x in c["specs"] if not x["kind"].startswith("container")]
+        c.pop("pool", None)
+        return {"kind": "collect", "collect": c, "ext_seed": rng.getrandbits(32)}
     host = rng.random() < 0.3
     g = G.gen_spec(rng, tier, max_nodes=16 if tier == "quick" else 36, parts=rng.randint(1, 6), fault_rate=0.2,
                    allow_seeded=False, host_ds=host)
@@ -52,6 +61,8 @@ def gen_case(rng, tier, idx):
 
 def nontrivial(spec):
     from vpmon import gen_graph as G
+    if spec.get("kind") == "collect":
+        return len(spec["collect"]["specs"]) >= 3
     nodes = spec["graph"]["nodes"]
     parts = collections.Counter(nd["part"] for nd in nodes)
     if sum(1 for p, k in parts.items() if k >= 2) >= 2:
@@ -136,10 +147,137 @@ def body_counts(events, n):
     return c
 
 
+_CUID = [0]
+
+
+def tree_digest(out):
+    """relative path -> content for data files; metadata documents without the timing fields"""
+    files = {}
+    for d, _, names in os.walk(out):
+        for n in names:
+            p = os.path.join(d, n)
+            rel = os.path.relpath(p, out)
+            with open(p, "rb") as f:
+                data = f.read()
+            if rel.startswith("meta_data"):
+                try:
+                    doc = json.loads(data.decode())
+                    doc.pop("exec_time", None)
+                    doc.pop("ser_time", None)
+                    doc["errors"] = [e.strip().splitlines()[-1] if isinstance(e, str) and e.strip() else e for e in (doc.get("errors") or [])]
+                    data = json.dumps(doc, sort_keys=True).encode()
+                except Exception:
+                    pass
+            files[rel] = data
+    return files
+
+
+def run_collect(spec, ctx):
+    """serial vs thread-pool collection of the same specs, persisted while it runs"""
+    import shutil
+    import tempfile
+    import types
+    from concurrent.futures import ThreadPoolExecutor
+    from insights.core import Parser, dr
+    from insights.core.context import HostContext
+    from insights.core.plugins import combiner, parser
+    from insights.core.serde import Hydration
+    from vpmon import gen_graph as G
+    from vpmon.props import c11
+    c = spec["collect"]
+    _CUID[0] += 1
+    uid = 100000 + _CUID[0]
+    modname = "vpmon_c04.c%d" % uid
+    sys.modules[modname] = types.ModuleType(modname)
+    created = []
+    base = tempfile.mkdtemp(prefix="vpc04_")
+    old_switch = sys.getswitchinterval()
+    try:
+        root = os.path.join(base, "root")
+        for rel, lines in c["files"].items():
+            p = os.path.join(root, rel)
+            os.makedirs(os.path.dirname(p), exist_ok=True)
+            with open(p, "w", encoding="utf-8") as f:
+                f.write("\n".join(lines))
+        pts = c11.build_specset(c, root, uid, modname, created, [])
+        created.extend(pts)
+        parsers = []
+        for k, pt in enumerate(pts):
+            cls = type("P%d_%d" % (uid, k), (Parser,), {"__module__": modname, "parse_content": lambda self, content: setattr(self, "lines", list(content))})
+            if c["specs"][k]["kind"] == "raw_file":
+                continue
+            pc = parser(pt)(cls)
+            created.append(pc)
+            parsers.append(pc)
+
+        def summary(*vals):
+            return len([v for v in vals if v is not None])
+        summary.__name__ = summary.__qualname__ = "summary%d" % uid
+        summary.__module__ = modname
+        comb = combiner(optional=list(parsers))(summary)
+        created.append(comb)
+        graph = dr.get_dependency_graph(comb)
+        for pt in pts:
+            graph.update(dr.get_dependency_graph(pt))
+
+        def collect(pool_size, out):
+            br = dr.Broker()
+            br[HostContext] = HostContext(root=root)
+            pool = ThreadPoolExecutor(max_workers=pool_size) if pool_size else None
+            h = Hydration(out, br[HostContext], pool=pool)
+            br.add_observer(h.make_persister(set(pts)))
+            try:
+                if pool:
+                    dr.run_all(dict(graph), br, pool)
+                else:
+                    dr.run(dict(graph), broker=br)
+            finally:
+                if pool:
+                    pool.shutdown(wait=True)
+            vals = {}
+            for k, pc in enumerate(parsers):
+                v = br.get(pc)
+                vals["parser%d" % k] = None if v is None else ([x.lines for x in v] if isinstance(v, list) else v.lines)
+            vals["summary"] = br.get(comb)
+            exc = {}
+            for key, lst in br.exceptions.items():
+                exc[dr.get_name(key).split(".")[-1]] = sorted((type(e).__name__, str(e)[:200].replace(base, "<base>")) for e in lst)
+            return vals, exc, tree_digest(out)
+        ref = collect(0, os.path.join(base, "out_serial"))
+        ctx.count("collections_serial")
+        ctx.count("files_persisted_serial", len(ref[2]))
+        sys.setswitchinterval(1e-6)
+        for w in (2, 4, 8):
+            out = os.path.join(base, "out_pool%d" % w)
+            got = collect(w, out)
+            ctx.count("pool_runs")
+            ctx.count("collections_with_thread_pool")
+            if got[0] != ref[0]:
+                bad = [k for k in ref[0] if ref[0][k] != got[0].get(k)]
+                ctx.violation("collected-values-differ-under-pool", {"pool": w, "keys": bad[:5], "serial": repr([ref[0][k] for k in bad[:2]])[:300], "pool_run": repr([got[0].get(k) for k in bad[:2]])[:300]})
+            if got[1] != ref[1]:
+                ctx.violation("recorded-failures-differ-under-pool", {"pool": w, "serial": ref[1], "pool_run": got[1]})
+            if got[2] != ref[2]:
+                a, b_ = ref[2], got[2]
+                diff = sorted(k for k in set(a) | set(b_) if a.get(k) != b_.get(k))
+                ctx.violation("persisted-archive-differs-under-pool", {"pool": w, "files": diff[:6],
+                                                                       "serial": [repr(a.get(k))[:120] for k in diff[:2]], "pool_run": [repr(b_.get(k))[:120] for k in diff[:2]]})
+            shutil.rmtree(out, ignore_errors=True)
+    finally:
+        sys.setswitchinterval(old_switch)
+        for comp in created:
+            G._unregister(comp)
+        dr.COMPONENTS_BY_NAME.clear()
+        sys.modules.pop(modname, None)
+        shutil.rmtree(base, ignore_errors=True)
+
+
 def run_case(spec, ctx):
     from concurrent.futures import ThreadPoolExecutor
     from insights.core import dr
     from vpmon import gen_graph as G
+    if spec.get("kind") == "collect":
+        return run_collect(spec, ctx)
     g = spec["graph"]
     b = G.build(g)
     rng = random.Random(spec["ext_seed"])
@@ -299,7 +437,7 @@ def run_shard(ctx):
     seeds = range(8) if ctx.tier == "quick" else range(24)
     scratch = os.environ.get("VERIF_SCRATCH") or "/tmp"
     path = os.path.join(scratch, "c04_specs_%d.json" % ctx.shard)
-    batch = [c for c in cases if "_d0" in c]
+    batch = [c for c in cases if "_d0" in c and c.get("kind") != "collect"]
     with open(path, "w") as f:
         f.write(jdump([dict((k, v) for k, v in c.items() if k != "_d0") for c in batch]))
     orders = collections.defaultdict(set)
